@@ -197,7 +197,7 @@ func label(c helloCase, ref *refHello) string {
 	return fmt.Sprintf("hello/v=%04x/%s/%s/records=%s", c.Ver, g, sni, rec)
 }
 
-const ruleText = "structural ClientHello generator (legacy version SSL3..TLS1.2, 1..40 cipher suites from known/GREASE/SCSV/near-GREASE/random values, 0..20 extensions: SNI from a 3-name alphabet, supported_groups with GREASE, ec_point_formats with 0..3 formats, well-formed known types, unknown types with empty/random bodies, GREASE types, duplicated types other than server_name/supported_groups/ec_point_formats, random order) x record-layer fragmentation (1..n records, cuts inside the handshake header) x TCP segmentation, sent to the https service through the real server, then EOF; each case also sends the same hello with re-drawn GREASE values; oracle = independent JA3 of the raw bytes sent == https.ja3-digest of every event of the connection, https.server-name == SNI sent, both hellos recorded with the same digest; non-trivial = hello has >=1 GREASE value or >=1 unknown or duplicated extension"
+const ruleText = "structural ClientHello generator (legacy version SSL3..TLS1.2, 1..40 cipher suites from known/GREASE/SCSV/near-GREASE/random values, 0..20 extensions: SNI from a 4-name alphabet incl. a mixed-case name, supported_groups with GREASE, ec_point_formats with 0..3 formats, well-formed known types, unknown types with empty/random bodies, GREASE types, duplicated types other than server_name/supported_groups/ec_point_formats, random order) x record-layer fragmentation (1..n records, cuts inside the handshake header) x TCP segmentation, sent to the https service through the real server, then EOF; each case also sends the same hello with re-drawn GREASE values; oracle = independent JA3 of the raw bytes sent == https.ja3-digest of every event of the connection, https.server-name == SNI sent, both hellos recorded with the same digest; non-trivial = hello has >=1 GREASE value or >=1 unknown or duplicated extension"
 
 func runHello(t *testing.T, name string, checks, maxCiphers, maxExts int) {
 	r := vlib.Open(prop)
